@@ -1,9 +1,11 @@
 package dbmodel
 
 import (
+	"context"
 	"errors"
 	"fmt"
 	"net/url"
+	"os"
 	"sort"
 	"strings"
 	"sync"
@@ -419,10 +421,142 @@ func (e *LeaderEngine) SessCleanup(id int, ts int) (int, string) {
 	return off, out
 }
 
-// SessLeaderChange closes the controller and leads the shard again with a new controller on the same
-// log and DB; waits until the new session manager has armed a timer for every session record.
-func (e *LeaderEngine) SessLeaderChange() error {
-	if err := e.Restart(); err != nil {
+// FillChunk is the number of records per request of a population (Sessions.tla!FillFrom).
+const FillChunk = 25
+
+// SessFill populates the shard with m plain records "a-001" .. "a-m", FillChunk per request.
+func (e *LeaderEngine) SessFill(m int) error {
+	for lo := 1; lo <= m; lo += FillChunk {
+		hi := lo + FillChunk - 1
+		if hi > m {
+			hi = m
+		}
+		r := Req{}
+		for i := lo; i <= hi; i++ {
+			r.Puts = append(r.Puts, Put{Key: K(fmt.Sprintf("a-%03d", i)), Val: i, Exp: NoExp, Sess: NoSess})
+		}
+		_, res, err := e.Write(r.Proto(), SessTs(e.NextOffset()))
+		if err != nil {
+			return err
+		}
+		for i, p := range res.GetPuts() {
+			if p.Status != proto.Status_OK {
+				return fmt.Errorf("population: put %d of the request at offset %d: %v", i, e.next-1, p.Status)
+			}
+		}
+	}
+	return nil
+}
+
+// electLagging replaces the leader by a node that has acknowledged the whole log as a follower but was
+// only told a commit offset `lag` entries short of it: a real follower controller on fresh directories
+// is fed the leader's log through its Replicate stream (the commit offset announced with entry o is
+// min(o-1, last-lag)), fenced for the next term and closed; the old leader is closed; a leader controller
+// on the follower's log and DB is told BecomeLeader.
+func (e *LeaderEngine) electLagging(lag int) error {
+	entries, err := e.LogEntries()
+	if err != nil {
+		return fmt.Errorf("harness: reading the leader's log: %w", err)
+	}
+	if len(entries) != e.next || lag > len(entries) {
+		return fmt.Errorf("harness: the leader's log has %d entries, %d were written, lag %d", len(entries), e.next, lag)
+	}
+	last := int64(len(entries) - 1)
+	commit := last - int64(lag)
+	f, err := NewFollower(e.ns, e.term)
+	if err != nil {
+		return fmt.Errorf("harness: follower: %w", err)
+	}
+	taken := false
+	defer func() {
+		if !taken {
+			f.Close()
+		}
+	}()
+	for _, le := range entries {
+		c := le.Offset - 1
+		if c > commit {
+			c = commit
+		}
+		if err := f.Append(le, c); err != nil {
+			return fmt.Errorf("follower: %w", err)
+		}
+	}
+	// every entry acknowledged (in the follower's log), the announced commit offset applied - and not more
+	deadline := time.Now().Add(CallTimeout)
+	for {
+		f.stream.mu.Lock()
+		n := len(f.stream.acks)
+		acked := n > 0 && f.stream.acks[n-1] == last
+		f.stream.mu.Unlock()
+		if acked {
+			break
+		}
+		if time.Now().After(deadline) {
+			return fmt.Errorf("hang: the follower did not acknowledge offset %d", last)
+		}
+		time.Sleep(100 * time.Microsecond)
+	}
+	if err := f.WaitApplied(commit); err != nil {
+		return fmt.Errorf("follower: %w", err)
+	}
+	f.disconnect()
+	nt, err := guard(func() (*proto.NewTermResponse, error) {
+		return f.fc.NewTerm(&proto.NewTermRequest{Shard: Shard, Term: e.term + 1})
+	})
+	if err != nil {
+		return fmt.Errorf("follower NewTerm: %w", err)
+	}
+	if nt.HeadEntryId.GetOffset() != last {
+		return fmt.Errorf("the fenced follower reports head offset %d, its log was fed up to %d", nt.HeadEntryId.GetOffset(), last)
+	}
+	if c := f.fc.CommitOffset(); c != commit {
+		return fmt.Errorf("the follower applied up to offset %d although the commit offset announced is %d", c, commit)
+	}
+	if _, err := guard(func() (int, error) { return 0, f.fc.Close() }); err != nil {
+		return fmt.Errorf("follower Close: %w", err)
+	}
+	// the old leader goes away
+	e.quiesce()
+	if _, err := guard(func() (int, error) { return 0, e.lc.Close() }); err != nil {
+		return fmt.Errorf("Close: %w", err)
+	}
+	_, _ = guard(func() (int, error) { _ = e.kvf.Close(); _ = e.walf.Close(); return 0, nil })
+	_ = os.RemoveAll(e.dir)
+	taken = true
+	e.dir, e.kvf, e.walf = f.dir, f.kvf, f.wf
+	// the node was fenced for the new term as a follower: its leader controller starts fenced in that term
+	_, err = guard(func() (int, error) {
+		lc, err := server.NewLeaderController(server.Config{NotificationsRetentionTime: time.Hour}, e.ns, Shard, nil, e.walf, e.kvf)
+		if err != nil {
+			return 0, fmt.Errorf("NewLeaderController: %w", err)
+		}
+		e.lc = lc
+		e.term++
+		if _, err := lc.BecomeLeader(context.Background(), &proto.BecomeLeaderRequest{Shard: Shard, Term: e.term, ReplicationFactor: 1}); err != nil {
+			return 0, fmt.Errorf("BecomeLeader: %w", err)
+		}
+		return 0, nil
+	})
+	if err != nil {
+		e.dead = true
+		return err
+	}
+	if c := e.commit(); c+1 != e.next {
+		return fmt.Errorf("the new leader's DB is at offset %d after BecomeLeader, %d entries are in its log", c, e.next)
+	}
+	return nil
+}
+
+// SessLeaderChange replaces the leader: lag = 0 closes the controller and leads the shard again with a new
+// controller on the same log and DB; lag > 0 elects a node whose DB lags its log by that many entries
+// (electLagging).  Waits until the new session manager has armed a timer for every session record.
+func (e *LeaderEngine) SessLeaderChange(lag int) error {
+	if lag == 0 {
+		if err := e.Restart(); err != nil {
+			return err
+		}
+	} else if err := e.electLagging(lag); err != nil {
 		return err
 	}
 	ks, err := e.List(&proto.ListRequest{StartInclusive: SessPrefix, EndExclusive: "__oxia/session\x00/"})
@@ -445,7 +579,36 @@ func (e *LeaderEngine) SessLeaderChange() error {
 		}
 		return n == want
 	})
+	// A manager that starts other sessions than the DB shows must be seen doing so, reproducibly: BecomeLeader
+	// has returned, so every session it decided to start has its goroutine; wait until none of them is still
+	// on its way to its timer (read from the goroutine stacks, not from a delay).
+	deadline := time.Now().Add(SignalTimeout)
+	for sessionsStarting() && time.Now().Before(deadline) {
+		time.Sleep(100 * time.Microsecond)
+	}
 	return nil
+}
+
+// sessionsStarting: is some session goroutine of this process (created by server.startSession) neither
+// parked in the select of waitForHeartbeats nor past it (in session.delete)?  Such a goroutine has not
+// necessarily asked for its timer yet.
+func sessionsStarting() bool {
+	var buf strings.Builder
+	_ = pprofLookup(&buf)
+	for _, g := range strings.Split(buf.String(), "\n\n") {
+		if !strings.Contains(g, "created by github.com/oxia-db/oxia/server.startSession") {
+			continue
+		}
+		if strings.Contains(g, "(*session).delete") {
+			continue
+		}
+		head, _, _ := strings.Cut(g, "\n")
+		if strings.Contains(head, "[select") && strings.Contains(g, "(*session).waitForHeartbeats") {
+			continue
+		}
+		return true
+	}
+	return false
 }
 
 // ExpiryVsNewTerm is the outcome of the scenario "a session is between the two steps of its expiry
